@@ -432,9 +432,17 @@ theorem deSeqLoop_length (ext : DeExt) (cfg : DeConfig) (S : Schema) :
     intro hn hinv
     unfold deSeqLoop
     split
-    · simp only [DeM.pure_apply, Prod.mk.injEq, Except.ok.injEq]
-      rintro ⟨rfl, -⟩
-      simp only [List.length_reverse]; omega
+    · simp only [DeM.bind_apply]
+      split
+      · next p s1 h1 =>
+        obtain ⟨more, bs'⟩ := p
+        simp only
+        split
+        · simp [DeM.fail_apply]
+        · simp only [DeM.pure_apply, Prod.mk.injEq, Except.ok.injEq]
+          rintro ⟨rfl, -⟩
+          simp only [List.length_reverse]; omega
+      · simp
     · simp only [DeM.bind_apply]
       split
       · next p s1 h1 =>
@@ -1512,7 +1520,12 @@ theorem nopanic_all (hS : S.keysInBounds = true) (W : Nat) (D : Nat → Nat)
     · intro item depth ign eh mi bs acc hnode hb
       simp only [deSeqLoop]
       split
-      · exact NoPanic.pure _
+      · refine NoPanic.bind (NoPanic.hasMore _ _ _) ?_
+        rintro ⟨more, bs'⟩
+        simp only
+        split
+        · exact NoPanic.fail_custom
+        · exact NoPanic.pure _
       · refine NoPanic.bind' (NoPanic.hasMore _ _ _) ?_
         rintro ⟨more, bs'⟩ s s1 h1
         simp only
@@ -2133,7 +2146,12 @@ theorem nesting_all (ext : DeExt) (cfg : DeConfig) (S : Schema) : ∀ fuel : Nat
     · intro item depth ign eh mi bs acc hacc
       simp only [deSeqLoop]
       split
-      · exact Post.pure fun o ho => hacc o (List.mem_reverse.mp ho)
+      · refine Post.bind_any ?_
+        rintro ⟨more, bs'⟩
+        simp only
+        split
+        · exact Post.fail _
+        · exact Post.pure fun o ho => hacc o (List.mem_reverse.mp ho)
       · refine Post.bind_any ?_
         rintro ⟨more, bs'⟩
         simp only
